@@ -30,24 +30,36 @@ from checks import _c05_gen as G5
 PLATFORMS = ["p1", "plat-two", "z9"]
 
 
-def _plain_base(r, idx) -> Dict[str, Any]:
-    """A small non-loop workflow: replicate-by-variable chain + plain components over 1-3 stages."""
-    n_stages = r.randint(1, 3)
+TAG_TEMPLATES = ["%(known)s-%(replica)s", "r%(replica)s/%(known)s", "%(known)s.%(known)s-%(replica)s"]
+CSCOPE = "CSCOPE"        # distinctive value of `known` at component scope
+
+
+def _plain_base(r, idx, variant="ordinary"):
+    """A small non-loop workflow: replicate-by-variable chain + plain components over 1-3 stages.
+
+    variant 'reptag': stage 0 holds ONLY replicated components (src, foll) and a stage variable
+        tag = <template with %(known)s and %(replica)s>; `known` is a global that src and/or foll override at
+        component scope (value CSCOPE).  Plain components start at stage 1 (a non-replicated component in a stage
+        whose variables mention %(replica)s does not load).
+    variant 'workflow': a component `$import`s a document of type Workflow (returned as second value).
+    """
+    n_stages = r.randint(2, 3) if variant != "ordinary" else r.randint(1, 3)
     comps = []
-    with_repl = r.random() < 0.6
+    docs = {}
+    with_repl = variant == "reptag" or r.random() < 0.6
     comps.append({"name": "src", "stage": 0, "command": {"executable": "echo", "arguments": "src"}})
     if with_repl:
         comps[0]["workflowAttributes"] = {"replicate": "%(nrep)s"}
-        comps.append({"name": "foll", "stage": r.randint(0, n_stages - 1),
+        comps.append({"name": "foll", "stage": 0 if variant == "reptag" else r.randint(0, n_stages - 1),
                       "command": {"executable": "echo", "arguments": "stage0.src:ref -r %(replica)s"},
                       "references": ["stage0.src:ref"]})
-        st = r.randint(comps[-1]["stage"], n_stages - 1)
+        st = r.randint(max(comps[-1]["stage"], 1 if variant == "reptag" else 0), n_stages - 1)
         comps.append({"name": "agg", "stage": st,
                       "command": {"executable": "echo",
-                                  "arguments": "stage%d.foll:output" % comps[-1]["stage"]},
-                      "references": ["stage%d.foll:output" % comps[-1]["stage"]],
+                                  "arguments": "stage%d.foll:output" % comps[-2 + 1]["stage"]},
+                      "references": ["stage%d.foll:output" % comps[-2 + 1]["stage"]],
                       "workflowAttributes": {"aggregate": True}})
-    for st in range(n_stages):
+    for st in range(1 if variant == "reptag" else 0, n_stages):
         nm = "plain%s" % "abc"[st]
         c = {"name": nm, "stage": st, "command": {"executable": "echo", "arguments": "-n"}}
         prods = [p for p in comps if p["stage"] <= st and p["name"] in ("agg",) or
@@ -61,20 +73,54 @@ def _plain_base(r, idx) -> Dict[str, Any]:
     doc = {"components": comps}
     if with_repl:
         doc["variables"] = {"default": {"global": {"nrep": r.randint(1, 3)}}}
-    return doc
+    if variant == "reptag":
+        v = doc["variables"]["default"]
+        v["global"]["known"] = r.choice(["G", "glob", "7"])
+        v["stages"] = {0: {"tag": r.choice(TAG_TEMPLATES)}}
+        shadowers = r.choice([["src"], ["foll"], ["src", "foll"]])
+        for c in comps[:2]:
+            c["command"]["arguments"] += " %(tag)s"
+            if c["name"] in shadowers:
+                c["variables"] = {"known": CSCOPE}
+    if variant == "workflow":
+        imp_stage = r.randint(1, n_stages - 1)
+        foreign = [c for c in comps if c["stage"] <= imp_stage and c["name"].startswith("plain")] or \
+                  [c for c in comps if c["name"] == "plaina"]
+        src_c = r.choice(foreign)
+        method = r.choice(["ref", "output", "copy"])
+        two = r.random() < 0.6 and imp_stage + 1 <= n_stages - 1 or r.random() < 0.3
+        wf_comps = [{"name": "work", "stage": 0, "command": {"executable": "echo", "arguments": "-w inp:%s" % method},
+                     "references": ["inp:%s" % method]}]
+        if two:
+            off = 1 if imp_stage + 1 <= n_stages - 1 and r.random() < 0.5 else 0
+            wf_comps.append({"name": "post-work", "stage": off,
+                             "command": {"executable": "echo", "arguments": "stage0.work:ref"},
+                             "references": ["stage0.work:ref"]})
+        docs["wf.yaml"] = {"type": "Workflow", "inputBindings": {"inp": {"type": method}}, "components": wf_comps}
+        comps.append({"name": "imp-wf", "stage": imp_stage, "$import": "wf.yaml",
+                      "bindings": {"inp": "stage%d.%s:%s" % (src_c["stage"], src_c["name"], method)}})
+        if r.random() < 0.6 and imp_stage <= n_stages - 1:
+            st = r.randint(imp_stage, n_stages - 1)
+            comps.append({"name": "after-wf", "stage": st,
+                          "command": {"executable": "echo", "arguments": "stage%d.work:output" % imp_stage},
+                          "references": ["stage%d.work:output" % imp_stage]})
+    return doc, docs
 
 
 def draw_case(r, idx: int, max_k: int) -> Dict[str, Any]:
     with_loop = (idx % 3 != 2)
     shape = None
     dowhile = None
+    docs: Dict[str, Any] = {}
+    variant = "loop"
     if with_loop:
-        shape = G5.draw_shape(r, idx, 0)
+        shape = G5.draw_shape(r, idx, 0, allow_repl_carried=False)   # that mechanism is C05's (known finding there)
         main_txt, dw_txt = G5.render(shape)
         flowir = yaml.safe_load(main_txt)
         dowhile = yaml.safe_load(dw_txt)
     else:
-        flowir = _plain_base(r, idx)
+        variant = ["ordinary", "reptag", "workflow"][(idx // 3) % 3]
+        flowir, docs = _plain_base(r, idx, variant)
 
     n_plat = [1, 2, 3][idx % 3] if idx < 6 else r.randint(1, 3)
     plats = r.sample(PLATFORMS, n_plat - 1)
@@ -96,7 +142,7 @@ def draw_case(r, idx: int, max_k: int) -> Dict[str, Any]:
     st_vars = dflt.setdefault("stages", {})
     for st in range(n_stages):
         if r.random() < 0.6:
-            st_vars[st] = {"sa": r.choice(["s%d-%%(ga)s" % st, "s%d" % st, "%(gc)s.%(gb)s"])}
+            st_vars.setdefault(st, {})["sa"] = r.choice(["s%d-%%(ga)s" % st, "s%d" % st, "%(gc)s.%(gb)s"])
             if r.random() < 0.3:
                 st_vars[st]["gc"] = "stage-gc-%d" % st
     for p in plats:
@@ -172,6 +218,14 @@ def draw_case(r, idx: int, max_k: int) -> Dict[str, Any]:
     if dowhile is not None:
         for c in dowhile["components"]:
             decorate(c, in_loop=True)
+    for d in docs.values():
+        for c in d["components"]:
+            decorate(c)
+    if variant == "reptag":
+        # the layered scopes of `known` the stage variable could pick up instead of the component scope
+        for p in plats:
+            if r.random() < 0.5:
+                variables[p].setdefault("global", {})["known"] = "%s-known" % p
 
     # -- user variable files
     uservars: List[Dict[str, Any]] = []
@@ -204,15 +258,17 @@ def draw_case(r, idx: int, max_k: int) -> Dict[str, Any]:
     # the replication count a user file sets must be honoured by the truth of the C05 shape; keep the
     # loop's own nrep variable out of user files (shape truth is not used by C07, only for rendering)
     probe = platform is not None and (idx % 2 == 0 or r.random() < 0.3)
-    return {"default_reload_probe": probe, "idx": idx, "flowir": flowir, "dowhile": dowhile, "uservars": uservars, "platform": platform,
+    if variant == "reptag" and uservars and r.random() < 0.5:
+        uservars[0].setdefault("global", {})["known"] = "user-known"
+    return {"variant": variant, "docs": docs, "default_reload_probe": probe, "idx": idx, "flowir": flowir, "dowhile": dowhile, "uservars": uservars, "platform": platform,
             "k0": k0, "cycles": cycles, "with_loop": with_loop}
 
 
 def class_key(case: Dict[str, Any]) -> str:
     f = case["flowir"]
     comps = f["components"] + ((case["dowhile"] or {}).get("components", []))
-    return "plats%d|sel%s|loop%d|k0=%s|cyc%s|uv%d|ovr%d|repl%d|bp%d|envp%d" % (
-        len(f["platforms"]), "D" if case["platform"] is None else "P", int(case["with_loop"]),
+    return "%s|plats%d|sel%s|loop%d|k0=%s|cyc%s|uv%d|ovr%d|repl%d|bp%d|envp%d" % (
+        case.get("variant", "?"), len(f["platforms"]), "D" if case["platform"] is None else "P", int(case["with_loop"]),
         "0" if case["k0"] == 0 else ("<10" if case["k0"] < 10 else ">=10"),
         "%d%s%s" % (len(case["cycles"]), "U" if any(c["update"] for c in case["cycles"]) else "n",
                     "+k" if any(c["k_more"] for c in case["cycles"]) else ""),
